@@ -83,6 +83,17 @@ class C18(Prop):
                     ops.append("v:-/" + gen.hexs(c))
             lines.append("%s %s %s" % ("wcs" if i % 3 != 0 else "wcsx", random_script(rng), ",".join(ops) if ops else "-"))
         yield "grammar-scripted", lines
+        # single calls far above any internal buffer or console limit (a `write` must consume all it reports)
+        lines = []
+        sizes = [40000, 70000, (1 << 20) + 4097] + ([(1 << 22) + 17] if tier == "thorough" else [])
+        for size in sizes:
+            s = []
+            while len(s) < size:
+                s += sgrgen.styled_text(rng, True, pieces=5) or [0x61]
+            tail = list(b"\x1b[35mtail")
+            lines.append("wcs - w:%s,a:%s" % (gen.hexs(s), gen.hexs(tail)))
+            lines.append("wcs - a:%s,w:%s" % (gen.hexs(s), gen.hexs(tail)))
+        yield "huge-single-calls", lines
         # the console stream over the real stdout / stderr, locked between two writes (child process)
         lines = []
         for i in range(150 if tier == "thorough" else 50):
